@@ -120,7 +120,29 @@ fn find_msg(r: &[u8; 32], a: &[u8; 32], ctx: Option<&[u8]>, tries: u32, pred: im
 }
 
 fn drive(ctx: &Ctx, a: &[u8; 32], msg: &[u8], sig: &[u8; 64], c: Option<&[u8]>, tag: &str, stats: &std::sync::Mutex<std::collections::BTreeMap<String, u64>>) {
+    drive_sk(ctx, None, a, msg, sig, c, tag, stats)
+}
+
+/// `seed`: for honest keys, the verification methods of the *signing* key are driven with the same triple too
+/// (they are separate entry points with their own bodies).
+fn drive_sk(ctx: &Ctx, seed: Option<&[u8; 32]>, a: &[u8; 32], msg: &[u8], sig: &[u8; 64], c: Option<&[u8]>, tag: &str, stats: &std::sync::Mutex<std::collections::BTreeMap<String, u64>>) {
     ctx.eval(1);
+    if let Some(seed) = seed {
+        let sk = ed25519_dalek::SigningKey::from_bytes(seed);
+        if c.map(|x| x.len() <= 255).unwrap_or(true) {
+            for (name, strict, r) in crate::props::sigs::real_verifiers_sk(&sk, msg, sig, c) {
+                let want = model_accepts(a, msg, sig, c, strict);
+                match r {
+                    Err(e) => ctx.violation(&format!("verify.{}", name), &format!("panic: {}", e), json!({"kind": "verify_sk", "seed": hex(seed), "msg": hex(msg), "sig": hex(sig), "ctx": c.map(hex), "class": tag})),
+                    Ok(g) => {
+                        if g != want {
+                            ctx.violation(&format!("verify.{}", name), &format!("accept={} but the documented rule says {} ({})", g, want, tag), json!({"kind": "verify_sk", "seed": hex(seed), "msg": hex(msg), "sig": hex(sig), "ctx": c.map(hex), "class": tag}));
+                        }
+                    }
+                }
+            }
+        }
+    }
     let case = json!({"kind": "verify", "key": hex(a), "msg": hex(msg), "sig": hex(sig), "ctx": c.map(hex), "class": tag});
     ctx.case(&case.to_string());
     let key = format!("{}/{}/{}/{}", hex(a), hex(msg), hex(sig), c.map(hex).unwrap_or("-".into()));
@@ -165,19 +187,34 @@ pub fn run(ctx: &Ctx) {
                 for (sn, s) in s_values(&sb) {
                     let mut t = sig;
                     t[32..].copy_from_slice(&s);
-                    drive(ctx, &key.public, &msg, &t, c.as_deref(), &format!("honest_R.S={}", sn), &stats);
+                    drive_sk(ctx, Some(seed), &key.public, &msg, &t, c.as_deref(), &format!("honest_R.S={}", sn), &stats);
                 }
                 // R replaced by each encoding class (S honest): only R = honest R can verify
                 for e in &encs {
                     let mut t = sig;
                     t[..32].copy_from_slice(&e.bytes);
-                    drive(ctx, &key.public, &msg, &t, c.as_deref(), "R_replaced", &stats);
+                    drive_sk(ctx, Some(seed), &key.public, &msg, &t, c.as_deref(), "R_replaced", &stats);
                 }
                 // non-canonical re-encoding of the honest R is impossible for generic points
                 // (y < 2^255 - 19 + 19); flip the sign bit instead: different point
                 let mut t = sig;
                 t[31] ^= 0x80;
-                drive(ctx, &key.public, &msg, &t, c.as_deref(), "R_sign_flipped", &stats);
+                drive_sk(ctx, Some(seed), &key.public, &msg, &t, c.as_deref(), "R_sign_flipped", &stats);
+                // what only the key holder can make: R = the identity (small order) with S = k*a, which satisfies
+                // the equation under the honest key: accepted by the plain verifiers, refused by the strict ones;
+                // and the same with the non-canonical identity encodings (refused everywhere: R bytes differ)
+                for (rn, rb) in [("identity", ed::ID.compress()), ("identity_signbit", { let mut b = ed::ID.compress(); b[31] |= 0x80; b }), ("identity_y=p+1", crate::model::fp::p().add(&U::ONE).to_le32())] {
+                    let (dom, m): (Vec<u8>, Vec<u8>) = match c {
+                        None => (vec![], msg.clone()),
+                        Some(cx) => (eddsa::dom2(1, cx), eddsa::sha512(&[&msg]).to_vec()),
+                    };
+                    let k = Zl::from_le(&eddsa::sha512(&[&dom, &rb, &key.public, &m]));
+                    let sv = k.mul(&Zl::new(&key.a));
+                    let mut t = [0u8; 64];
+                    t[..32].copy_from_slice(&rb);
+                    t[32..].copy_from_slice(&sv.0.to_le32());
+                    drive_sk(ctx, Some(seed), &key.public, &msg, &t, c.as_deref(), &format!("keyholder_R={}", rn), &stats);
+                }
             }
         }
     });
